@@ -72,8 +72,10 @@ pub fn run_case(ctx: &Ctx, case: &DropCase) -> CaseResult {
     // optionally use the ring (NOPs written as raw entries: the constructors are not the subject here)
     let mut s = Session { ring: Some(ring), cfg, sq_entries: cfg.sq_entries(), submitted: 0, batches: 0 };
     for i in 0..case.used {
-        let n = 1 + (i as u32 % s.sq_entries);
-        let sqes = (0..n).map(|k| Sqe::Raw(RawSqe { opcode: sys::OP_NOP, user_data: 0x7000 + (i as u64) * 64 + k as u64, ..RawSqe::default() })).collect();
+        // small rings: batches of growing size; large rings (several pages of ring memory): every slot of the
+        // ring in every batch, so that the far end of each array is used
+        let n = if s.sq_entries >= 256 { s.sq_entries } else { 1 + (i as u32 % s.sq_entries) };
+        let sqes = (0..n).map(|k| Sqe::Raw(RawSqe { opcode: sys::OP_NOP, user_data: 0x70_0000 + (i as u64) * 8192 + k as u64, ..RawSqe::default() })).collect();
         s.run(sqes)?;
     }
     let ring = s.ring.take().unwrap();
